@@ -97,7 +97,7 @@ Lemma finish_sim s t g f b v :
   ~ In g (t_order t) -> ~ In g (t_due t) ->
   exists s1, finish (set_done s g) g v = (s1, false) /\ Inv s1 f b /\
              Rel s1 (sp_result t g (RReturn v)) f b /\
-             (NoLeak s -> memz g (killq s) = false -> NoLeak s1).
+             (NoLeak s -> NoLeak s1).
 Proof.
   intros HI HR Ho Hd. destruct (front_head _ _ _ _ HI) as (Ea & Eg & Ep & Hn & ND & Hpos).
   unfold finish. sproj. rewrite Eg, Ep. eexists. split; [reflexivity|].
@@ -108,7 +108,7 @@ Proof.
   - apply (Inv_remove s g f b); auto. intros x [<-|H]; auto.
   - constructor; cbn [sp_result]; sproj.
     + intros x. rewrite alookup_adel, (r_st _ _ _ _ HR). unfold abs_st. sproj.
-      rewrite alookup_adel. destruct (x =? g); auto.
+      rewrite alookup_adel, memz_remz. destruct (x =? g); auto.
     + apply NoDup_akeys_adel, (r_nd _ _ _ _ HR).
     + apply (r_pc _ _ _ _ HR).
     + f_equal. apply (r_val _ _ _ _ HR).
@@ -121,9 +121,8 @@ Proof.
       * apply (r_ran _ _ _ _ HR x Hx). now right.
     + intros x Hx. rewrite alookup_adel_neq; [now apply (r_act _ _ _ _ HR)|].
       intros ->. rewrite !in_app_iff in Hx. tauto.
-  - intros L Hk x Hx. sproj. rewrite amem_adel. destruct (x =? g) eqn:E.
-    + apply Z.eqb_eq in E. subst. congruence.
-    + cbn. now apply L.
+  - intros L x Hx. sproj. rewrite memz_remz in Hx. rewrite amem_adel.
+    apply andb_true_iff in Hx. destruct Hx as [Hx1 Hx2]. rewrite Hx1. cbn. now apply L.
 Qed.
 
 (* ---- parked: a positive wait ---------------------------------------------- *)
